@@ -4,6 +4,8 @@ package engines
 import (
 	_ "polysim/engines/e1"
 	"polysim/engines/lc"
+	_ "polysim/engines/storage"
+	_ "polysim/engines/wallet"
 )
 
 func init() { lc.Finalize() }
